@@ -39,6 +39,10 @@ import (
 //	6 ready pool, Fetch answer held: cancel → answer released → connection idle → idle timer → CloseIdleConnections
 //	7 ready pool, Fetch answered normally → CloseIdleConnections while idle
 //	8 ready pool, two round trips, one held; CloseIdleConnections while the other connection is idle; release
+//	10 the broker answers ApiVersions and the first Metadata request, then never answers Metadata again (requests read,
+//	   connection kept open) while the pool's background refresh (MetadataTTL 60 ms) keeps asking; a Fetch round trip
+//	   is answered meanwhile; after several TTLs CloseIdleConnections.  Every refresh request has to be bounded by
+//	   the TTL: its connection fails at the deadline and is closed — none may be left behind (census after the TTL).
 //	9 the broker connection's dial is slow and ignores its context: the caller's context is cancelled while the
 //	  connect is under way, the connect then succeeds — the connection nobody waits for any more must be released to
 //	  the pool or closed (and be gone after the idle timeout / CloseIdleConnections)
@@ -58,12 +62,19 @@ func transportScenario(kind int, r *rand.Rand) (lines [][2]string) {
 	held := make(chan struct{}, 16)
 	slowDial := make(chan struct{}, 16)
 	dialDelay := time.Duration(10+r.Intn(20)) * time.Millisecond
-	brk := &Broker{FetchMax: 2, Topic: "t", OnFetch: func(q FetchReq) FetchResp {
+	var metaN int32
+	brk := &Broker{FetchMax: 2, Topic: "t", OnMetadata: func(conn int) (int32, int16) {
+		if kind == 10 && atomic.AddInt32(&metaN, 1) > 1 {
+			rec.add("mq") // a refresh request reached the broker; it is never answered
+			return 1, OffsetHang
+		}
+		return 1, 0
+	}, OnFetch: func(q FetchReq) FetchResp {
 		rec.add("fq")
 		switch kind {
 		case 5:
 			return FetchResp{Hang: true}
-		case 7:
+		case 7, 10:
 			return FetchResp{Hwm: 0, Cut: -1}
 		}
 		if kind == 8 && q.Offset == 1 { // the second caller's request is answered at once
@@ -73,6 +84,10 @@ func transportScenario(kind int, r *rand.Rand) (lines [][2]string) {
 		<-release
 		return FetchResp{Hwm: 0, Cut: -1}
 	}}
+	ttl := 10 * time.Second
+	if kind == 10 {
+		ttl = 60 * time.Millisecond
+	}
 	idle := 40 * time.Millisecond
 	if kind == 7 || kind == 8 {
 		idle = 30 * time.Second // the idle timer cannot do CloseIdleConnections' work
@@ -81,7 +96,7 @@ func transportScenario(kind int, r *rand.Rand) (lines [][2]string) {
 	tr := &kafka.Transport{
 		DialTimeout: 300 * time.Millisecond,
 		IdleTimeout: idle,
-		MetadataTTL: 10 * time.Second,
+		MetadataTTL: ttl,
 		Dial: func(ctx context.Context, network, addr string) (net.Conn, error) {
 			if kind == 1 || kind == 3 {
 				<-ctx.Done() // unreachable: the dial itself blocks until its context ends
@@ -182,6 +197,15 @@ func transportScenario(kind int, r *rand.Rand) (lines [][2]string) {
 	case 0, 1:
 		time.Sleep(time.Duration(2+r.Intn(10)) * time.Millisecond)
 		cancelAll()
+	case 10:
+		for i := range done {
+			<-waitOr(done[i])
+		}
+		// let the background refresh ask (and not be answered) a few times: the TTL is drawn in [0, 60 ms)
+		dl := time.Now().Add(2 * time.Second)
+		for time.Now().Before(dl) && rec.count("mq") < 3 {
+			time.Sleep(5 * time.Millisecond)
+		}
 	case 2, 3, 5, 7:
 		// nothing to steer: deadlines or normal answers
 	case 4:
@@ -331,7 +355,7 @@ func transportPart(seed int64) {
 	}
 	n := 0
 	for rep := 0; rep < reps; rep++ {
-		for kind := 0; kind < 10; kind++ {
+		for kind := 0; kind < 11; kind++ {
 			n++
 			if tooManyStuck() {
 				return
